@@ -92,6 +92,26 @@ def prog_work(spec):
     return r
 
 
+META_FOLDS = [
+    "{ EA = RsV; RdV = (1 ? RtV : mem_load_s32(EA)); }", "{ RdV = 0 ? mem_load_u8(RsV) : RtV; }", "{ RdV = 1 ? RtV : PuN; }", "{ RdV = 0 ? P0_NEW : RtV; }", "{ RdV = 1 ? RtV : mem_load_u8(RsV) + mem_load_u8(RtV); }",
+    "{ RdV = mem_load_u8(RsV); RxV = 1 ? RtV : mem_load_u8(RtV); }", "{ RdV = sizeof(mem_load_u32(RsV)); }", "{ RdV = 1 ? RtV : ({ mem_store_u8(RsV, RtV); 3; }); }", "{ RdV = 0 ? ({ JUMP(riV); 1; }) : RtV; }",
+    "{ PdV = 1 ? RsV : RtV; }", "{ RdV = 1 ? RsV : (P0 = RtV); }", "{ if (1 < 2) { RdV = RsV; } }", "{ if (2 < 1) { JUMP(riV); } }",
+]
+
+
+def meta_work(text):
+    """Attribute lists of one generated part under both layouts (through transform_insn, from a fresh state)."""
+    out = {}
+    pc = _JOB["meta_pc"]
+    r = pc.get(text)
+    if r[0] != "ok":
+        return ("parse-rejected",)
+    for f in ("stmt", "exec"):
+        v = drive.transform_fresh(_JOB["comps"][f], "V16_meta", [r[1]], [text])
+        out[f] = ("ok", v[1]["meta"], v[1]["needs_hi"], v[1]["needs_pkt"]) if v[0] == "ok" else ("exc", v[1])
+    return ("done", out)
+
+
 def space(tier):
     sp = c05.space("quick") + c06.space("quick") + [s for s in c03.space("quick") if s.tag[0] in ("init", "binit", "bassign", "bcast", "breg", "bstore", "chain-assign", "store", "reg")]
     if tier == "thorough":
@@ -188,6 +208,27 @@ def run(ctx):
                     known_static += 1
         else:
             ctx.report({"program": r["text"], "status": r["status"], "first": r.get("first"), "detail": r.get("detail")}, None, what="layouts differ for %s: %s" % (r["text"][-120:], str(r.get("first") or r.get("detail"))[:300]))
+    # attribute lists and companion flags of generated parts (every attribute-relevant construct and spelling, and
+    # constructs inside folded-away arms) must be the same in both layouts
+    from vf.props import c13
+
+    mtexts = [t for _g, t in c13.part_space(ctx.tier)] + META_FOLDS
+    mpc = drive.ParseCache("c13-parts")
+    mpc.ensure(mtexts, seed=ctx.seed)
+    _JOB["meta_pc"] = mpc
+    n_meta = n_meta_rej = 0
+    for t, r in zip(mtexts, core.pmap(meta_work, mtexts, seed=ctx.seed)):
+        if r[0] != "done":
+            continue
+        a, b = r[1]["stmt"], r[1]["exec"]
+        if a[0] != b[0]:
+            ctx.report({"part": t, "stmt": a[:2], "exec": b[:2]}, None, what="generated part %s is accepted in one layout only" % t)
+        elif a[0] == "ok":
+            n_meta += 1
+            if a[1:] != b[1:]:
+                ctx.report({"part": t, "meta_stmt": a[1], "meta_exec": b[1], "flags_stmt": a[2:], "flags_exec": b[2:]}, None, what="generated part %s: attributes / flags differ between layouts: %s vs %s" % (t, a[1:], b[1:]))
+        else:
+            n_meta_rej += 1
     ctx.sample({"part": out[0]["id"], "states": out[0]["n_states"], "status": out[0]["status"]})
     ctx.sample({"program": pres[0]["text"], "status": pres[0]["status"], "states": pres[0].get("n_states")})
     return ctx.finish(
@@ -205,6 +246,8 @@ def run(ctx):
             programs_equal=n_prog_equal,
             programs_rejected_in_both=n_rej,
             programs_with_same_static_defect_in_both_layouts=known_static,
+            generated_parts_attributes_compared=n_meta,
+            generated_parts_rejected_in_both=n_meta_rej,
         ),
         assumptions=["ILVM semantics (both layouts are executed by the same model, so only the emitted structure is compared)"],
     )
